@@ -245,9 +245,9 @@ def judge(which, fs, prev_exists, new, mode):
     return None
 
 
-def h_crash(k: int, partial: int, m: int, prev_exists: bool, which: str):
+def h_crash(k: int, partial: int, m: int, prev_exists: bool, which: str, maxm: int = 3):
     """The producer is killed before its k-th file-system step."""
-    assume(1 <= m <= 3)
+    assume(1 <= m <= maxm)
     m = pinned(m)  # the chunk count ends up in json.dumps / b"%d" formatting (C code)
     assume(1 <= k <= 40)
     assume(0 <= partial <= 40)
@@ -265,9 +265,9 @@ def h_crash(k: int, partial: int, m: int, prev_exists: bool, which: str):
     return judge(which, fs, prev_exists, EXPECT[0], "crash")
 
 
-def h_fault(f: int, e: int, m: int, prev_exists: bool, which: str):
+def h_fault(f: int, e: int, m: int, prev_exists: bool, which: str, maxm: int = 3):
     """The f-th file-system step fails with ENOSPC / EIO; the producer's own error handling runs."""
-    assume(1 <= m <= 3)
+    assume(1 <= m <= maxm)
     m = pinned(m)
     assume(1 <= f <= 40)
     assume(0 <= e < len(ERRNOS))
@@ -283,9 +283,9 @@ def h_fault(f: int, e: int, m: int, prev_exists: bool, which: str):
     return judge(which, fs, prev_exists, EXPECT[0], "io-error")
 
 
-def h_fault_then_crash(f: int, k: int, partial: int, m: int, which: str):
+def h_fault_then_crash(f: int, k: int, partial: int, m: int, which: str, maxm: int = 2):
     """An I/O error at step f, then the process is killed at a later step k (during the producer's clean-up)."""
-    assume(1 <= m <= 2)
+    assume(1 <= m <= maxm)
     m = pinned(m)
     assume(1 <= f < k <= 40)
     assume(0 <= partial <= 40)
@@ -321,12 +321,13 @@ def build(tier: str) -> CheckSpec:
 
     cubes = []
     tmo = 200 if tier == "quick" else 900
+    maxm = 3 if tier == "quick" else 6
     for w in PRODUCERS:
-        cubes.append(Cube(f"crash[{w}]", h_crash, {"k": int, "partial": int, "m": int, "prev_exists": bool}, {"which": w}, timeout=tmo, group=w))
-        cubes.append(Cube(f"io-error[{w}]", h_fault, {"f": int, "e": int, "m": int, "prev_exists": bool}, {"which": w}, timeout=tmo, group=w))
+        cubes.append(Cube(f"crash[{w}]", h_crash, {"k": int, "partial": int, "m": int, "prev_exists": bool}, {"which": w, "maxm": maxm}, timeout=tmo, group=w))
+        cubes.append(Cube(f"io-error[{w}]", h_fault, {"f": int, "e": int, "m": int, "prev_exists": bool}, {"which": w, "maxm": maxm}, timeout=tmo, group=w))
         if tier != "quick":
             # a producer without clean-up steps after a failed call has no later step to be killed at: may be empty
-            cubes.append(Cube(f"io-error+crash[{w}]", h_fault_then_crash, {"f": int, "k": int, "partial": int, "m": int}, {"which": w}, timeout=tmo, group=w, allow_empty=True))
+            cubes.append(Cube(f"io-error+crash[{w}]", h_fault_then_crash, {"f": int, "k": int, "partial": int, "m": int}, {"which": w, "maxm": 4}, timeout=tmo, group=w, allow_empty=True))
         cubes.append(Cube(f"twin: {w} publishes the complete file", twin_complete, {"m": int}, {"which": w}, timeout=60, role="twin"))
     return CheckSpec(
         property_id="C20",
@@ -334,7 +335,7 @@ def build(tier: str) -> CheckSpec:
         cubes=cubes,
         functions=[status.Status.dump, buildzip.ZipCreator.create_zip, buildzip.ZipCreator._write_zip, buildzip.make_zip, buildzip.zip_dir,
                    transport.download_with_retries, transport.stream_download_to_temp, render.main.callback],
-        bounds={"producers": PRODUCERS, "chunks": "1..3", "crash step": "every file-system step of the producer (symbolic 1..40)",
+        bounds={"producers": PRODUCERS, "chunks": "1..%d" % maxm, "crash step": "every file-system step of the producer (symbolic 1..40)",
                 "partial flush length": "symbolic 0..40 characters of the data being flushed at the crash",
                 "fault": "every step, errno in {ENOSPC, EIO}", "fault then crash": "thorough tier, f < k"},
         stubs=["open / os.rename / os.replace / os.unlink / os.close / os.walk / tempfile.mkstemp / mkdtemp / shutil.rmtree in the producers' module namespaces -> vlib/stubs/modelfs.py",
